@@ -63,6 +63,9 @@ def restrict_rules(chk, P, E):
                                   lambda st: any(x[0] == "F" and ("HWLOC_RESTRICT_FLAG_ADAPT_IO" in x[1] or "HWLOC_RESTRICT_FLAG_ADAPT_MISC" in x[1]) for x in st),
                                   "R-GUARD", "I/O or Misc children are dropped only when the corresponding ADAPT flag is not given", min_inst=1)
     chk.floor("R-GUARD", "child-list drop sites in topology.c", ndrop, 2)
+    chk.rule("R-ARITY", "a function that keeps the arity counters in step with the child lists it splices does so for every splice (sibling agreement inside hwloc_filter_levels_keep_structure: 6 splices)")
+    nar = setkind.arity_pairing(chk, P, ["topology.c"])
+    chk.floor("R-ARITY", "splices in arity-maintaining functions", nar, 4)
     chk.rule("R-FREERESET", "a child list released by hwloc_free_object_siblings_and_children(x->LIST) is reset (`x->LIST = NULL`, the SAME list head) on every path: "
              "the dying object's remaining lists are re-attached to its parent afterwards, a stale head would link freed objects")
     nfr = 0
